@@ -1,5 +1,8 @@
 import Driver.Common
-/-! Driver of the `pos` family (stub: no stream yet). -/
+import Driver.Pos
+/-! Driver of the `pos` family. -/
 
 def main (args : List String) : IO UInt32 :=
-  Drv.mainWith [] args
+  Drv.mainWith [
+    ("canon", Drv.Canon.stream)
+  ] args
